@@ -460,6 +460,9 @@ impl World {
         } else if idx == usize::MAX {
             // "the variable created last"
             p.last().copied()
+        } else if idx == usize::MAX - 1 {
+            // "the one before it"
+            p.iter().rev().nth(1).copied().or(p.last().copied())
         } else {
             Some(p[idx % p.len()])
         }
